@@ -10,7 +10,7 @@ for l in open('/verif/properties.jsonl'):
 wt = f"/tmp/seed_{pid}_{n}"
 print(f"""You are helping to evaluate a verification harness by seeding ONE realistic defect into a Go code base. You work independently: do NOT read, list or use anything under /verif, and do not touch /repo itself.
 
-Code base: usnistgov/dastard (NIST data-acquisition server for TES microcalorimeters, Go 1.23). Your own scratch git worktree: {wt} (work ONLY inside it; do not commit; no network: always `export GOFLAGS=-mod=mod GOPROXY=off GOSUMDB=off GOTOOLCHAIN=local`). Files named verif_*.go are build-tag-guarded test hooks: leave them alone.
+Code base: usnistgov/dastard (NIST data-acquisition server for TES microcalorimeters, Go 1.23). Your own scratch git worktree: {wt} (work ONLY inside it; do not commit; never use `git stash` (the stash is shared by all worktrees of /repo: use `git diff > file`, `git checkout -- <files>` and `git apply file` instead); no network: always `export GOFLAGS=-mod=mod GOPROXY=off GOSUMDB=off GOTOOLCHAIN=local`). Files named verif_*.go are build-tag-guarded test hooks: leave them alone.
 
 The semantic property your change must BREAK:
   {d['title']}
